@@ -121,7 +121,10 @@ inductive PNode where
   | reshape (c : Nat) (order : String)
   | stack (cs : List Nat) (axis : Int)
   | concat (cs : List Nat) (axis : Int)
+  /-- `BasicIndex`, `AdvancedIndexInContiguousAxes` -/
   | index (c : Nat) (ix : List PIdx)
+  /-- `AdvancedIndexInNoncontiguousAxes` -/
+  | indexNC (c : Nat) (ix : List PIdx)
   | einsum (descr : List (List EDescr)) (cs : List Nat)
   /-- `NamedArray`: the entry of its container it names -/
   | alias (c : Nat)
@@ -504,9 +507,28 @@ def plan (g : PGraph) (i : Nat) : Gen Plan :=
        let k := emittedIdxCount ix cshape
        if k = 0 then .ok (.pass c)
        else
+         -- the index entries are built (their arrays recursed into) before the indexed array is
          let sl := idxSlots (ix.take k) cshape
-         .ok (.stmt true (c :: islotKids sl) fun ns =>
-           .subscript (.name (ns.headD "?")) (fillISlots sl ns.tail)))
+         .ok (.stmt true (islotKids sl ++ [c]) fun ns =>
+           .subscript (.name (ns.getLastD "?")) (fillISlots sl ns.dropLast)))
+  | .indexNC c ix =>
+    (match staticShape (g.get c).shape with
+     | none => .unmodelled "symbolic shape under an index"
+     | some cshape =>
+       if emittedIdxCount ix cshape = 0 then .ok (.pass c)
+       else
+         -- advanced indices that were separated only by an ellipsis standing for no axis: NumPy
+         -- must see it, and then every axis is indexed explicitly
+         let adv := (List.range ix.length).filter fun i =>
+           match ix[i]? with | some (.slice _) => false | _ => true
+         let needsEllipsis := adv.getLastD 0 - adv.headD 0 + 1 == adv.length
+         let k := if needsEllipsis then cshape.length else emittedIdxCount ix cshape
+         let sl0 := idxSlots (ix.take k) cshape
+         let sl := if needsEllipsis then
+             sl0.take (adv.headD 0 + 1) ++ [.lit (.expr (.name "..."))] ++ sl0.drop (adv.headD 0 + 1)
+           else sl0
+         .ok (.stmt true (islotKids sl ++ [c]) fun ns =>
+           .subscript (.name (ns.getLastD "?")) (fillISlots sl ns.dropLast)))
   | .einsum descr cs =>
     .ok (.stmt true cs fun ns =>
       .call (npf "einsum") (.str (einsumSpec descr nd.shape.length) :: ns.map .name) [])
